@@ -84,19 +84,7 @@ def possible_values(facts: set[Fact], atoms: list[str]) -> dict[tuple[bool, ...]
     whose conditions all hold.  Condition texts must be boolean combinations (and / or / not / in-negation) of the atoms."""
     import itertools
 
-    def ev(n: ast.AST, env: dict[str, bool]) -> bool:
-        t = unparse(n)
-        if t in env:
-            return env[t]
-        if isinstance(n, ast.BoolOp):
-            vals = [ev(v, env) for v in n.values]
-            return all(vals) if isinstance(n.op, ast.And) else any(vals)
-        if isinstance(n, ast.UnaryOp) and isinstance(n.op, ast.Not):
-            return not ev(n.operand, env)
-        if isinstance(n, ast.Compare) and len(n.ops) == 1 and isinstance(n.ops[0], (ast.NotIn, ast.IsNot, ast.NotEq)):
-            flip = {ast.NotIn: ast.In, ast.IsNot: ast.Is, ast.NotEq: ast.Eq}[type(n.ops[0])]
-            return not ev(ast.Compare(n.left, [flip()], n.comparators), env)
-        raise AnalysisError(f"condition `{t}` is not a boolean combination of {atoms}")
+    ev = eval_test
 
     out: dict[tuple[bool, ...], set[str]] = {}
     for combo in itertools.product([True, False], repeat=len(atoms)):
@@ -107,3 +95,71 @@ def possible_values(facts: set[Fact], atoms: list[str]) -> dict[tuple[bool, ...]
                 vals.add(v)
         out[combo] = vals
     return out
+
+
+def eval_test(n: ast.AST, env: dict[str, bool]) -> bool:
+    """truth value of a test that is a boolean combination of the atoms in env (texts; negated comparison operators are flipped)"""
+    t = unparse(n)
+    if t in env:
+        return env[t]
+    # an object without __bool__/__len__ is true exactly when it is not None (C08 checks that for Scope): both spellings are one atom
+    if isinstance(n, ast.Compare) and len(n.ops) == 1 and isinstance(n.ops[0], ast.Is) and isinstance(n.comparators[0], ast.Constant) \
+            and n.comparators[0].value is None and unparse(n.left) in env:
+        return not env[unparse(n.left)]
+    if f"{t} is None" in env:
+        return not env[f"{t} is None"]
+    if isinstance(n, ast.BoolOp):
+        vals = [eval_test(v, env) for v in n.values]
+        return all(vals) if isinstance(n.op, ast.And) else any(vals)
+    if isinstance(n, ast.UnaryOp) and isinstance(n.op, ast.Not):
+        return not eval_test(n.operand, env)
+    if isinstance(n, ast.Compare) and len(n.ops) == 1 and isinstance(n.ops[0], (ast.NotIn, ast.IsNot, ast.NotEq)):
+        flip = {ast.NotIn: ast.In, ast.IsNot: ast.Is, ast.NotEq: ast.Eq}[type(n.ops[0])]
+        return not eval_test(ast.Compare(n.left, [flip()], n.comparators), env)
+    if isinstance(n, ast.Compare) and len(n.ops) == 1 and isinstance(n.ops[0], ast.Eq):
+        sw = unparse(ast.Compare(n.comparators[0], [ast.Eq()], [n.left]))
+        if sw in env:
+            return env[sw]
+    raise AnalysisError(f"condition `{t}` is not a boolean combination of {sorted(env)}")
+
+
+def outcome_under(fn: ast.FunctionDef, env: dict[str, bool], inline_locals: bool = True) -> str:
+    """'raise' / 'return' : how a loop-free function leaves when its tests (boolean combinations of the atoms in env) have the given
+    truth values.  Statements other than tests are assumed to complete normally.  AnalysisError when a test is not expressible."""
+    g = CFG(fn)
+    la = last_assignments(fn) if inline_locals else {}
+    n, steps = 0, 0  # ENTRY
+    from .cfg import ENTRY, EXIT, RAISE
+
+    n = ENTRY
+    while True:
+        steps += 1
+        if steps > 500:
+            raise AnalysisError(f"{fn.name}: loop while evaluating the outcome")
+        if n == EXIT:
+            return "return"
+        if n == RAISE:
+            return "raise"
+        node = g.nodes[n]
+        if isinstance(node.stmt, ast.Raise) and node.kind == "stmt":
+            outs = [m for m, lab in g.succ[n] if lab == "exc"]
+            if outs == [RAISE]:
+                return "raise"
+            raise AnalysisError(f"{fn.name}: raise inside try not modelled for outcome evaluation")
+        if node.kind == "test":
+            val = eval_test(inline(node.ast, la) if la else node.ast, env)
+            outs = [m for m, lab in g.succ[n] if lab == ("T" if val else "F")]
+        else:
+            outs = [m for m, lab in g.succ[n] if lab != "exc"]
+        if len(outs) != 1:
+            raise AnalysisError(f"{fn.name}: {len(outs)} successors at `{node.text()[:40]}` while evaluating the outcome")
+        n = outs[0]
+
+
+def has_cond(conds, atom: str, value: bool) -> bool:
+    """(atom, value) is among the path conditions, in either spelling of an object test (`x` true  ==  `x is None` false)"""
+    if (atom, value) in conds:
+        return True
+    if atom.endswith(" is None"):
+        return (atom[: -len(" is None")], not value) in conds
+    return (f"{atom} is None", not value) in conds
